@@ -272,7 +272,8 @@ def gen_escape(rnd, valid):
     insts = []
     for _ in range(rnd.randrange(1, 3)):
         e = [rnd.choice((expr.OpBReg(rnd.randrange(32), rnd.randrange(-200, 200)), expr.OpDeref(), expr.OpLit(rnd.randrange(32)),
-                         expr.OpPlusUConst(rnd.randrange(300)), expr.OpConst2S(rnd.randrange(-300, 300)))) for _ in range(rnd.randrange(0, 3))]
+                         expr.OpPlusUConst(rnd.randrange(300)), expr.OpConst2S(rnd.randrange(-300, 300)),
+                         expr.OpAddr(rnd.choice((0, 0x1000, 0x401000, 2 ** 32 - 1))))) for _ in range(rnd.randrange(0, 3))]   # DW_OP_addr: pointer-sized
         k = rnd.randrange(5 if valid else 7)
         if k == 0:
             insts.append(cfi.InstDefCFAExpression(e))
@@ -433,10 +434,22 @@ class C15(Prop):
                   "expressions; distinct = distinct case line; non-trivial = at least one state was yielded")
 
     def gen(self, tier, rnd, n):
+        import copy as _copy
         out = []
         for i in range(n):
             abi = abis()[i % len(abis())]
-            case = gen_case(rnd, abi, valid=(i % 5 != 0))
+            if out and rnd.random() < 0.12:
+                # the directives of the previous case -- its escapes as the bytes they were encoded to -- under an ABI with another
+                # pointer size: the same bytes then mean something else (or nothing)
+                prev = out[-1]
+                other = [a for a in abis() if a["ps"] != prev["ps"]]
+                abi = rnd.choice(other)
+                case = dict(abi=abi, retcol=abi["retcol"], big=abi["big"], ps=abi["ps"],
+                            blocks=[dict(b, entries=[(off, [(nm, list(args), sy) for nm, args, sy in ds]) for off, ds in b["entries"]]) for b in prev["blocks"]])
+                if "rev" in prev:
+                    case["rev"] = prev["rev"]
+            else:
+                case = gen_case(rnd, abi, valid=(i % 5 != 0))
             encode_escapes(case)
             out.append(case)
         return out
@@ -463,11 +476,21 @@ class C15(Prop):
                     dist={"implementation_exceptions": errs, "clean": len(lines) - sum(errs.values())})
 
     def oracle(self, tier, ctx, boosted):
+        import os
+        import subprocess
+        import sys
         rnd = C.rng("c15-oracle")
         n = 30000 if (boosted or tier == "thorough") else 6000
         viol, samples, inscope = [], [], 0
-        for case in self.gen(tier, rnd, n):
+        # the same cases evaluated backwards in a fresh interpreter: what an evaluation yields must not depend on what was evaluated before
+        tag = "c15-oracle" + str(C.seed())
+        env = dict(os.environ, PYTHONPATH="/repo/src:" + C.VERIF)
+        pw = subprocess.Popen([sys.executable, "-c", f"import sys; sys.path.insert(0, '/repo/tests'); from harness.c15 import backwards; backwards({tier!r}, {n})"],
+                              stdout=subprocess.PIPE, stderr=subprocess.PIPE, text=True, env=env, cwd=C.VERIF)
+        mine = {}
+        for k, case in enumerate(self.gen(tier, rnd, n)):
             ys, exc, alias_ok = run_impl(case)
+            mine[k] = (case, json.dumps([ys, exc]))
             if not alias_ok:
                 viol.append(dict(what="a copy of a yielded state changed during later evaluation", input=case_line(case), finding=None))
             if not in_scope(case):
@@ -482,7 +505,18 @@ class C15(Prop):
                 samples.append({"oracle": "reference evaluator", "case": case_line(case), "yields": ys[:2]})
             if len(viol) >= 10:
                 break
-        return dict(evaluations=n, violations=viol, samples=samples + [{"in_scope_cases": inscope}])
+        so, se = pw.communicate(timeout=3000)
+        if pw.returncode != 0:
+            raise RuntimeError("backwards worker failed: " + se[-400:])
+        for ln in so.splitlines():
+            if not ln.startswith("["):
+                continue
+            k, res = json.loads(ln)
+            if k in mine and mine[k][1] != json.dumps(res) and len(viol) < 12:
+                viol.append(dict(what="evaluate_cfi_directives yields something else for the same module when other modules were evaluated before it "
+                                      "(forwards in this process vs backwards in a fresh interpreter)", input=case_line(mine[k][0]),
+                                 expected=res, observed=json.loads(mine[k][1]), finding=None))
+        return dict(evaluations=2 * n, violations=viol, samples=samples + [{"in_scope_cases": inscope}])
 
     def replay(self, path):
         data = json.load(open(path))
@@ -491,3 +525,12 @@ class C15(Prop):
 
 
 PROP = C15()
+
+
+def backwards(tier, n):
+    """worker: the oracle's cases, evaluated in reverse order; one JSON line [index, [yields, error]] per case"""
+    rnd = C.rng("c15-oracle")
+    cases = PROP.gen(tier, rnd, n)
+    for k in range(len(cases) - 1, -1, -1):
+        ys, exc, _ = run_impl(cases[k])
+        print(json.dumps([k, [ys, exc]]))
